@@ -10,6 +10,6 @@ CONSTANTS
   ValSet = {0, 1, 1000000}
   ExhMax = 6
   NSamples = 1
-  Primes = {2, 3}
+  Primes = {2, 3, 5}
 INVARIANT InvCase
 CHECK_DEADLOCK FALSE
